@@ -22,6 +22,11 @@ def script_single(variant):
     ops = ["proc 1 node 77", "thread", "init 500", "vercheck", "cpu 0 0", "require nosv 2.0.0",
            "ev OHx now %s" % obs.i32(0, 500, 0).hex(), "ev OB. now 0102", "mark_type 3 0 t", "flush",
            "ev OB. now 0a0b0c0d", "ev OB. now -", "flush"]
+    if variant == "bigmeta":
+        # metadata larger than one stdio block: 70 CPUs and a long attribute
+        i = ops.index("cpu 0 0")
+        ops[i + 1:i + 1] = ["cpu %d %d" % (k, k) for k in range(1, 70)]
+        ops += ["attr_str test.long %s" % ("x" * 200)]
     if variant == "autoflush":
         ops += ["jumbo OB. now 1500000 3", "jumbo OB. now 900000 4", "ev OB. now -", "flush"]
     else:
@@ -163,6 +168,9 @@ def examine(wd, logdir):
 def run_point(arg):
     chk, drv = _CTX["chk"], _CTX["drv"]
     name, script, mode, inline, sc, k, rep = arg
+    fault = None
+    if isinstance(rep, str):          # "ENOSPC": make the call fail instead of killing the process
+        fault, rep = rep, 0
     wd = os.path.join(chk.scratch, "k-%d" % os.getpid())
     shutil.rmtree(wd, ignore_errors=True)
     os.makedirs(wd)
@@ -173,9 +181,14 @@ def run_point(arg):
         e = dict(env)
         if rep:
             e["OVNI_VERIF_DELAY"] = str(rep)
-        r = rt.run_script(drv, script, wd, env=e, timeout=120, inline=inline,
-                          wrapper=inject.strace_argv(log, "%s:signal=KILL:when=%d" % (sc, k)))
-        res["fired"] = inject.fired_kill(log)
+        if fault:
+            r = rt.run_script(drv, script, wd, env=e, timeout=120, inline=inline,
+                              wrapper=inject.strace_argv(log, "%s:error=%s:when=%d" % (sc, fault, k)))
+            res["fired"] = inject.fired_error(log)
+        else:
+            r = rt.run_script(drv, script, wd, env=e, timeout=120, inline=inline,
+                              wrapper=inject.strace_argv(log, "%s:signal=KILL:when=%d" % (sc, k)))
+            res["fired"] = inject.fired_kill(log)
         if not res["fired"]:
             return res
         v, sig = examine(wd, os.path.join(wd, "log"))
@@ -242,6 +255,13 @@ def main(argv):
                 seen.add((sc, k))
                 work.append((name, script, mode, inline, sc, k, 0))
             exhaustive["%s/%s" % (name, mode)] = len(seen)
+            # the process may also die (or go on) after a *failed* call: one
+            # failing write/close/open per point during relocation, then the same
+            # examination of the final directory
+            if mode != "direct":
+                for (sc, k) in sorted(seen):
+                    if sc in ("write", "close", "openat", "read"):
+                        work.append((name, script, mode, inline, sc, k, "ENOSPC"))
     # multi-threaded: kill points sampled per syscall, repeated (schedules differ)
     ms = script_multi()
     rng = chk.rng(0, "multi")
